@@ -92,9 +92,20 @@ specialise(
     "C13",
     "a.headers",
     c13_headers,
-    {"pair": list(range(len(ALIAS_PAIRS))), "with_lang": [False, True]},
-    skip_if=lambda fx: fx["with_lang"] and ALIAS_PAIRS[fx["pair"]][0] == "settings",
-    reach_if=lambda fx: not fx["with_lang"],
+    {"pair": list(range(len(ALIAS_PAIRS))), "with_lang": [False]},
+    timeout=500,
+    kernel=K[:2],
+    shims=(),
+    symbolic="upper/lower case of the first three characters, leading/trailing spaces, spaces before/after the language delimiter, language suffix present (8 symbolic booleans), 2-character symbolic language token",
+    bounds="one documented alias pair per instance",
+    weight=40,
+)
+specialise(
+    "C13",
+    "a.headers",
+    c13_headers,
+    {"pair": [p for p in range(len(ALIAS_PAIRS)) if ALIAS_PAIRS[p][0] != "settings"], "with_lang": [True], "up1": [False], "up2": [False], "lead": [False]},
+    reach_if=lambda fx: False,
     timeout=500,
     kernel=K[:2],
     shims=(),
